@@ -1,0 +1,103 @@
+//go:build verif
+
+// Contracts for package search: comparators (read by /verif/gocv; comment-only effect with the
+// verif tag off).
+
+package search
+
+// ---------------------------------------------------------------------------
+// C06 / C09: the order of hits
+// ---------------------------------------------------------------------------
+
+// hitCmp: ties are broken by natural index order (earlier hit first)
+//@ spec hitCmp(i *DocumentMatch, j *DocumentMatch) int = ite(i.HitNumber == j.HitNumber, 0, ite(i.HitNumber > j.HitNumber, 1, -1))
+
+// Score descending, then hit number.
+//@ spec scoreDescCmp(i *DocumentMatch, j *DocumentMatch) int = ite(i.Score < j.Score, 1, ite(i.Score > j.Score, -1, hitCmp(i, j)))
+
+//@ func CompareScoreDescending
+//@   props C06 C09
+//@   mode int
+//@   requires i != nil && j != nil
+//@   ensures result == scoreDescCmp(i, j)
+
+// keyCmp: comparison of the x-th sort key (score as a number, any other key by its string sort
+// value), reversed for descending keys.
+//@ spec rawKeyCmp(cs []bool, i *DocumentMatch, j *DocumentMatch, x int) int = ite(cs[x], ite(i.Score < j.Score, -1, ite(i.Score > j.Score, 1, 0)), ite(i.Sort[x] < j.Sort[x], -1, ite(i.Sort[x] > j.Sort[x], 1, 0)))
+//@ spec keyCmp(cs []bool, cd []bool, i *DocumentMatch, j *DocumentMatch, x int) int = ite(cd[x], -rawKeyCmp(cs, i, j, x), rawKeyCmp(cs, i, j, x))
+
+// SortOrder.Compare is the lexicographic comparison on the sort keys, ties by hit number:
+// the first key that differs decides; if none differs the hit numbers decide.
+//@ func SortOrder.Compare
+//@   props C06 C09
+//@   mode int
+//@   requires i != nil && j != nil && len(cachedScoring) >= len(so) && len(cachedDesc) >= len(so) && len(i.Sort) >= len(so) && len(j.Sort) >= len(so)
+//@   ensures result >= -1 && result <= 1
+//@   ensures forall(x, 0, len(so), implies(keyCmp(cachedScoring, cachedDesc, i, j, x) != 0 && forall(y, 0, x, keyCmp(cachedScoring, cachedDesc, i, j, y) == 0), result == keyCmp(cachedScoring, cachedDesc, i, j, x)))
+//@   ensures implies(forall(x, 0, len(so), keyCmp(cachedScoring, cachedDesc, i, j, x) == 0), result == hitCmp(i, j))
+//@   ensures forall(y, 0, len(so), keyCmp(cachedScoring, cachedDesc, i, j, y) == 0) || exists(x, 0, len(so), keyCmp(cachedScoring, cachedDesc, i, j, x) != 0 && forall(y, 0, x, keyCmp(cachedScoring, cachedDesc, i, j, y) == 0) && result == keyCmp(cachedScoring, cachedDesc, i, j, x), x)
+//@   loop 0: invariant forall(y, 0, iter, keyCmp(cachedScoring, cachedDesc, i, j, y) == 0)
+
+// ---- lemmas (ghost functions, verified against the contracts above) ----
+
+//@ func verifAssert
+//@   mode any
+//@   requires cond
+
+// O1-O3 for the score comparator on non-NaN scores: reflexive, sign-antisymmetric, transitive,
+// values in {-1,0,1}, and equal only for equal hit numbers (a strict total order on distinct hits).
+//@ func verifLemmaScoreCmpOrder
+//@   props C06 C09
+//@   mode int
+//@   requires a != nil && b != nil && d != nil && !isNaN(a.Score) && !isNaN(b.Score) && !isNaN(d.Score)
+
+// The same for the general comparator (any sort order): sort keys are strings under Go's string
+// order (a strict total order, axiomatised), scores are not NaN.
+//@ func verifLemmaSortCmpOrder
+//@   props C06 C09
+//@   mode int
+//@   requires a != nil && b != nil && d != nil && !isNaN(a.Score) && !isNaN(b.Score) && !isNaN(d.Score)
+//@   requires len(cs) >= len(so) && len(cd) >= len(so) && len(a.Sort) >= len(so) && len(b.Sort) >= len(so) && len(d.Sort) >= len(so)
+
+func verifAssert(cond bool) {}
+
+func verifLemmaSortCmpOrder(so SortOrder, cs, cd []bool, a, b, d *DocumentMatch) {
+	ab, ba := so.Compare(cs, cd, a, b), so.Compare(cs, cd, b, a)
+	bd, ad := so.Compare(cs, cd, b, d), so.Compare(cs, cd, a, d)
+	verifAssert(so.Compare(cs, cd, a, a) == 0)
+	verifAssert((ab < 0) == (ba > 0))
+	verifAssert((ab == 0) == (ba == 0))
+	if ab == 0 {
+		verifAssert(a.HitNumber == b.HitNumber)
+	}
+	if ab <= 0 && bd <= 0 {
+		verifAssert(ad <= 0)
+	}
+	if ab < 0 && bd <= 0 {
+		verifAssert(ad < 0)
+	}
+	if ab <= 0 && bd < 0 {
+		verifAssert(ad < 0)
+	}
+}
+
+func verifLemmaScoreCmpOrder(a, b, d *DocumentMatch) {
+	ab, ba := CompareScoreDescending(a, b), CompareScoreDescending(b, a)
+	bd, ad := CompareScoreDescending(b, d), CompareScoreDescending(a, d)
+	verifAssert(CompareScoreDescending(a, a) == 0)
+	verifAssert(ab >= -1 && ab <= 1)
+	verifAssert((ab < 0) == (ba > 0))
+	verifAssert((ab == 0) == (ba == 0))
+	if ab == 0 {
+		verifAssert(a.HitNumber == b.HitNumber)
+	}
+	if ab <= 0 && bd <= 0 {
+		verifAssert(ad <= 0)
+	}
+	if ab < 0 && bd <= 0 {
+		verifAssert(ad < 0)
+	}
+	if ab <= 0 && bd < 0 {
+		verifAssert(ad < 0)
+	}
+}
